@@ -15,6 +15,7 @@ import (
 	"strings"
 
 	"cosmossdk.io/math"
+	"github.com/cosmos/cosmos-sdk/baseapp"
 	edkeys "github.com/cosmos/cosmos-sdk/crypto/keys/ed25519"
 	sdk "github.com/cosmos/cosmos-sdk/types"
 	banktypes "github.com/cosmos/cosmos-sdk/x/bank/types"
@@ -189,7 +190,12 @@ type MsgResult struct {
 }
 
 func (w *World) Msg(ctx sdk.Context, msg sdk.Msg) (res MsgResult) {
-	h := w.App.MsgServiceRouter().Handler(msg)
+	return MsgVia(w.App.MsgServiceRouter(), ctx, msg)
+}
+
+// MsgVia: one message through the handler a Msg service router resolves for it, with the per-message envelope of §1.3(2).
+func MsgVia(router *baseapp.MsgServiceRouter, ctx sdk.Context, msg sdk.Msg) (res MsgResult) {
+	h := router.Handler(msg)
 	if h == nil {
 		res.Err = fmt.Sprintf("no handler for %T", msg)
 		return
